@@ -210,7 +210,10 @@ def route(ni: int, nj: int, pi: int, crlf: bool, missing: int,
             if sel[k] and nm in PAIR_OF:
                 want.append(PAIR_OF[nm])
         if sel_absent:
-            want.append((Instrument.GHL_COOP, Difficulty.MEDIUM))   # never in the file
+            for cand in ("MediumGHLCoop", "EasyKeyboard", "HardGHLBass"):
+                if cand not in names:                                # a pair that is not in the file
+                    want.append(PAIR_OF[cand])
+                    break
     rec = _Rec()
     log = H.CountingLogger()
     rec.install()
